@@ -1054,7 +1054,45 @@ fn cli_oracle(ctx: &Ctx, pool: &[String], n: usize, full: &[Cfg]) -> bool {
     let scratch = ctx.verif_root.join(".build/scratch/c12");
     let counter = AtomicU64::new(0);
     let machinery: Mutex<Option<String>> = Mutex::new(None);
-    let ps = projects(pool, n, full);
+    let mut ps = projects(pool, n, full);
+    // the same projects with some of their files formatted already (every non-empty proper subset of the files):
+    // whatever state the other files are in, each file ends up holding its formatted text
+    let mut pre = vec![];
+    for p in ps.iter() {
+        if p.error_in.is_some() || p.files.len() < 2 {
+            continue;
+        }
+        let exp = match expected_files(p) {
+            Ok(Some(e)) if e.len() == p.files.len() => e,
+            _ => continue,
+        };
+        for mask in 1..(1u32 << p.files.len()) - 1 {
+            let mut files = p.files.clone();
+            for (k, f) in files.iter_mut().enumerate() {
+                if mask & (1 << k) != 0 {
+                    if let Some((_, t)) = exp.iter().find(|(n, _)| *n == f.0) {
+                        f.1 = t.clone();
+                    }
+                }
+            }
+            if files == p.files {
+                continue;
+            }
+            pre.push(Project {
+                files,
+                toml: p.toml.clone(),
+                cfg: p.cfg,
+                shape: match p.shape {
+                    "main+other" => "main+other:some-files-formatted-already",
+                    "chain" => "chain:some-files-formatted-already",
+                    _ => "fan:some-files-formatted-already",
+                },
+                error_in: None,
+            });
+        }
+    }
+    ctx.set("cli_projects_with_some_files_formatted_already", json!(pre.len()));
+    ps.extend(pre);
     ctx.set("cli_projects", json!(ps.len()));
     par_each(ps, |p: Project| {
         let k = counter.fetch_add(1, Ordering::Relaxed);
